@@ -9,6 +9,7 @@ import PoetryVerif.Proofs.VRangeOps
 import PoetryVerif.Proofs.VRangeDiff
 import PoetryVerif.Proofs.VRangeWalk
 import PoetryVerif.Proofs.VRangeSort
+import PoetryVerif.Proofs.VRangeSep
 
 set_option linter.unusedSimpArgs false
 set_option linter.unusedVariables false
@@ -172,8 +173,8 @@ theorem member_union_single_exact (x y : RC) (hx : x.WF) (hy : y.WF) (htx : x.Ti
 /-- **`VersionUnion.of` (stable sort + merge) preserves membership**: whenever it returns, every member of
 the result is well-formed, mentions only bounds of the inputs, and the result admits a regular probe iff
 some input does.  (`Good l`: members well-formed and tidy.)
-Totality: `union_of_total_partial`; the sort step: `union_of_sort_sorted`.  Not proved: that the merged result is
-separated (each member strictly below the next, not adjacent) — see `union_of_full_statement`. -/
+Totality: `union_of_total_partial`; the sort step: `union_of_sort_sorted`; everything, for range members:
+`union_of_ranges`. -/
 theorem union_of_preserves_membership_partial (l : List RC) (res : VC) (h : unionOfFlat l = .ok res)
     (hg : Good l) :
     Good res.flatten ∧ (∀ e ∈ res.bounds, e ∈ boundsOf l) ∧
@@ -213,8 +214,27 @@ theorem union_allows_eq_plain_of_returns (rs : List RC) (v : Version) (b : Bool)
       simp only [hex ex he, Bool.false_eq_true, if_false] at h
       simpa [pure, Except.pure, VC.allowsPlain, VC.flatten] using h.symm
 
+/-- **`VersionUnion.of` on range members is total, exact and yields a well-formed union**: for well-formed,
+tidy, inhabited *ranges* (any number, any order, overlapping or not) the result is the empty constraint, a single
+range or a union of at least two ranges that are sorted (each strictly below all later ones) with consecutive
+ones not adjacent, and it admits a regular probe iff some input does. -/
+theorem union_of_ranges (l : List RC) (hm : ∀ c ∈ l, RngMember c) :
+    ∃ res, unionOfFlat l = .ok res ∧ res.WF ∧
+      ∀ p, p.wf = true → Regular (boundsOf l) p → res.allowsPlain p = anyAllows l p :=
+  unionOfFlat_rng l hm
+
+example : RngMember (.rng exA) ∧ RngMember (.rng exB) := by
+  refine ⟨⟨⟨?_, ?_⟩, ⟨fun h => by simp [exA] at h, fun h => by simp [exA] at h⟩, by show exA.isStrictlyLower exA = false; decide, _, rfl⟩,
+    ⟨⟨?_, ?_⟩, ⟨fun h => by simp [exB] at h, fun _ => rfl⟩, by show exB.isStrictlyLower exB = false; decide, _, rfl⟩⟩
+  · intro e he; simp [VRange.bounds, exA] at he; rcases he with rfl | rfl <;> decide
+  · intro m M hm hM; simp [exA] at hm hM; subst hm; subst hM; rw [vk_lt_iff]; decide
+  · intro e he; simp [VRange.bounds, exB] at he; subst he; decide
+  · intro m M hm hM; simp [exB] at hM
+
+/-- the same with `Version` members allowed (not proved: `allows_any` of a `Version` is computed through
+`intersect`, not through the bound comparisons) -/
 def union_of_full_statement : Prop :=
-  ∀ l : List RC, Good l → ∃ res, unionOfFlat l = .ok res ∧ res.WF ∧
+  ∀ l : List RC, (∀ c ∈ l, c.WF ∧ c.Tidy ∧ c.NE) → ∃ res, unionOfFlat l = .ok res ∧ res.WF ∧
     ∀ p, p.wf = true → Regular (boundsOf l) p → res.allowsPlain p = anyAllows l p
 
 example : Good [.rng exA, .rng exB] ∧
